@@ -33,7 +33,7 @@ CHECKS = {
          "Every sequence up to the length bound of source events, clock ticks and task runs is executed for observe_on, delay, delay_at, delay_subscription(_at), subscribe_on (both forms where they exist) under the FIFO-prompt model and under the any-order model with a bounded number of deviations; no invention/duplication/early delivery ever, exact order and timing under FIFO, completeness once everything ran out.", "5/C07"),
  "C08": ([E1], "bounded-exhaustive enumeration of clock advances, poll orders and async scripts on the real interval/timer/from_future/from_stream sources under a virtual clock",
          "Every environment sequence up to the length bound (single ticks, jumps over several periods, run order of ready tasks within the deviation bound, wake-ups of pending futures/streams, every async script up to the length bound) is executed; values, earliest times, exact times under the prompt model and relay completeness are checked after every step.", "5/C08"),
- "C09": ([E1], "bounded-exhaustive enumeration of timed source scripts x same-instant orderings on the real rate-limiting operators against timed list models",
+ "C09": ([E1, E2], "bounded-exhaustive enumeration of timed source scripts x same-instant orderings on the real rate-limiting operators against timed list models; plus exhaustive preemption-bounded DFS over interleavings of emitting threads with the timer tasks of debounce / throttle_time and with the notifier thread of sample_threads",
          "Every sequence up to the length bound of source events, ticks and task runs (one deviation = both orders of a same-instant source event and timer) is executed for debounce, throttle(_time) x 3 edges, sample(interval), buffer_with_time, buffer_with_count_and_time; generic no-invention/no-duplication/order/buffer clauses under every run order and the exact timed model under the prompt executor.", "5/C09"),
  "C10": ([E2], "exhaustive preemption-bounded DFS over thread interleavings (CHESS-style iterative context bounding, own scheduler on the shuttle runtime) of real _threads code",
          "Two and three controlled threads run short scripts of next/complete/error/subscribe/unsubscribe against a shared SubjectThreads and against every _threads operator family; every schedule within the preemption bound is executed (scheduling points at every MutArc lock/unlock, controlled atomics, spawn/join, wake-ups); overlap detector, notification grammar, common order, and completion of every thread (deadlock and lost wake-up are reported by the runtime) are checked on each. The statement's `randomised beyond the bound` part is sampling and is not claimed.", "5/C10"),
